@@ -211,8 +211,8 @@ def _check_driver(ck, inst, ssite, p, owner, init, ow, nch):
     if len(sfs) == 2 * nobs:
         for j, c in enumerate(sfs):
             draw = first if j < nobs else gen
-            smp = c[5].get("samples")
-            ck.check(isinstance(smp, VTens) and isinstance(draw[4], VTens) and smp.obj is draw[4].obj, "C13.R4", inst + ":evaluated on this draw's chains #%d" % j, ssite,
+            smp_t = c[7].get("samples") if len(c) > 7 else None
+            ck.check(smp_t is not None and smp_t == draw[6], "C13.R4", inst + ":evaluated on this draw's chains #%d" % j, ssite,
                      "an observable is not evaluated on the chain state returned by the current draw")
     ups = [c for c in it.calls if c[0].endswith("_update_statistics")]
     ck.check(len(ups) == 2 * nobs, "C13.R4", inst + ":one merge per observable and draw", ssite, "_update_statistics is called %d times, expected %d" % (len(ups), 2 * nobs))
